@@ -189,7 +189,12 @@ PLANS["C04"] = plan_core("C04", "c04", "chain / conservation of writes", asan=Fa
 PLANS["C05"] = plan_core("C05", "c05", "compare-and-swap histories", asan=False, extra_jobs=lambda tier, seed: [miri_core_job("C05", "c05", tier, 4, 96)], required=["cas.internal_retry", "load.fallback_confirmed"])
 PLANS["C06"] = plan_core("C06", "c06", "rcu histories", asan=False, extra_jobs=lambda tier, seed: [miri_core_job("C06", "c06", tier, 4, 96)], required=["rcu.retried", "load.fallback_confirmed"])
 PLANS["C10"] = plan_core("C10", "c10", "guard identity / ownership ledger")
-PLANS["C12"] = plan_core("C12", "c12", "per-container histories", asan=False, extra_jobs=lambda tier, seed: [miri_core_job("C12", "c12", tier, 4, 96)], required=WINDOW_PATHS + ["write.help_other_storage"])
+def dual_jobs(tier):
+    return [{"name": "C12.dual.reuse", "flavour": "native", "args": ["dual", "alloc=reuse", "execs=%d" % T(tier, 1500, 60000)], "shards": 4, "threads": 3, "timeout": 2400},
+            {"name": "C12.dual.quarantine", "flavour": "native", "args": ["dual", "alloc=quarantine", "execs=%d" % T(tier, 1500, 60000)], "shards": 4, "threads": 3, "timeout": 2400}]
+
+
+PLANS["C12"] = plan_core("C12", "c12", "per-container histories", asan=False, extra_jobs=lambda tier, seed: [miri_core_job("C12", "c12", tier, 4, 96)] + dual_jobs(tier), required=WINDOW_PATHS + ["write.help_other_storage"])
 PLANS["C07"] = plan_c07()
 
 
